@@ -20,6 +20,12 @@
 //! * The observation of a materialised state is, for every party, what `finish()` does (last
 //!   round) or what `step2()` + `send_step2()` do (first round of the relinearisation protocol):
 //!   refusal (panic) or the fingerprint of the produced bytes.
+//!
+//! Production-size sections (`size_sections`): the tiny-instance sections above never leave N = 8, <= 4 primes, <= 6 parties.
+//! `primes_*` (1..18 RNS primes at the level / decomposition components, N = 4, 8), `parties_*` (8..65 parties along a stated
+//! family of delivery orders, `Mode::Family`) and `bigN_*` (N = 16..8192, structured plaintexts, long chains at N >= 1024)
+//! drive every dimension the protocol code loops over across the 8 / 16 / 64 / 1024 / 4096 boundaries with the same replay
+//! machinery and the same oracles; their violation keys carry the prefix `primes:` / `parties:` / `bigN:`.
 use crate::engine::*;
 use crate::he::*;
 use heathcliff::multiparty::participant::*;
@@ -51,6 +57,8 @@ pub fn describe(rep: &Report) {
          transitions = lattice edges (deliveries from a distinct state) executed; traces_validated_against_impl = histories replayed and \
          compared party by party. non-trivial = every history except the canonical complete one (non-canonical order or an incomplete inbox).",
     );
+    rep.assume("production-size sections (keys prefixed primes: / parties: / bigN:): same machinery, same oracles. primes_n2/n3 + primes_chained_n2 drive the number of RNS primes (2..19 in total, i.e. 1..18 at the first level and 1..18 decomposition components of the relinearisation rounds) at N = 4, 8; parties_family / parties_boundary drive the party count (8, 9, 16, 17, 33, 65) along an explicitly stated family of delivery orders (identity, reverse, rotations, adjacent transpositions — never 'all orders'; delivered sets are kept as unbounded bit vectors there, the 64-bit masks are used by the lattices only); bigN_n2/n3 + bigN_primes_n2 drive the degree (16..1024, thorough ..8192) with structured plaintexts (ramp, all-maximal, unit slots at the 2^j-1, 2^j, 2^j+1 positions) and long chains (9..18 primes) at N >= 1024. The context of such a configuration is built once per explicit parameter set and shared between fixtures (immutable, a function of the parameters only)");
+    rep.assume("CKKS scale: 2^min(30, ..) below N = 128 as before, 2^min(48, ..) from N = 128 on (primes >= 54 bits there), because the a-priori worst-case tolerance grows with N^2 for the relinearised product; the largest |error|/tolerance ratio is reported per section");
     rep.assume("chained sections: every ordered pair (thorough: and triple) of protocols is run to completion on the SAME Participant objects, so the common random tape and all private state are carried from one protocol into the next; only the last protocol's outputs are judged (same oracles), its expectation is the canonical-order run of the same chain; each step's input is a fresh encryption (no data flow between steps), update_secret_key is never called, hence the summed key is constant along a chain");
     rep.assume("rounds are synchronous barriers: step2() is called by all parties after every round-1 message has been delivered (the API carries no round tag; delivering a round-2 message to a party still in round 1 is caller misuse and not explored)");
     rep.assume("each message is delivered at most once and unmodified (duplication, loss and corruption are not part of this property)");
@@ -163,10 +171,24 @@ impl Cfg {
         h64(&serde_json::to_string(self).unwrap_or_default())
     }
     fn shape(&self) -> String {
-        if self.chain.is_empty() {
+        let base = if self.chain.is_empty() {
             format!("{}:{:?}", self.proto.name(), self.spec.scheme)
         } else {
             format!("{}:{:?}:after[{}]", self.proto.name(), self.spec.scheme, self.chain.iter().map(|p| p.name()).collect::<Vec<_>>().join(">"))
+        };
+        format!("{}{}", self.size_class(), base)
+    }
+    /// key prefix of the production-size sections (derived from the configuration itself, so that a replayed case gives
+    /// the same key); empty for everything the tiny-instance sections enumerate (N <= 8, <= 4 primes, <= 6 parties)
+    fn size_class(&self) -> &'static str {
+        if self.parties > 6 {
+            "parties:"
+        } else if self.spec.n >= 16 {
+            "bigN:"
+        } else if self.spec.q.len() > 4 {
+            "primes:"
+        } else {
+            ""
         }
     }
     /// the whole sequence of protocols run on the same participants
@@ -297,6 +319,22 @@ fn sum_keys(parts: &[Vec<u64>], moduli: &[u64], n: usize) -> Vec<u64> {
     out
 }
 
+/// The context of a production-size configuration is built once per parameter set and shared by all fixtures (long chains
+/// cost O(k^3) to expand, and lattice layers rebuild the fixture per worker); a context is immutable and a function of the
+/// explicit parameters only, so a replayed case builds the same one. Tiny-instance sections build theirs per fixture as before.
+fn shared_context(cfg: &Cfg) -> Arc<HeContext> {
+    static CACHE: Mutex<BTreeMap<String, Arc<HeContext>>> = Mutex::new(BTreeMap::new());
+    if cfg.size_class().is_empty() {
+        return cfg.spec.context();
+    }
+    let key = serde_json::to_string(&cfg.spec).unwrap_or_default();
+    if let Some(c) = CACHE.lock().unwrap().get(&key) {
+        return c.clone();
+    }
+    let ctx = cfg.spec.context();
+    CACHE.lock().unwrap().entry(key).or_insert(ctx).clone()
+}
+
 impl Fixture {
     fn reseed(&self, phase: &str, round: usize, party: usize) {
         env(self.seed, h64(&(self.tag, phase, round, party)), self.tern.mode(), self.err.mode());
@@ -335,7 +373,7 @@ impl Fixture {
     }
 
     fn build(cfg: &Cfg, seed: u64) -> Result<Fixture, String> {
-        let ctx = cfg.spec.context();
+        let ctx = shared_context(cfg);
         if !ctx.parameters_set() {
             return Err("parameters not set".into());
         }
@@ -353,7 +391,10 @@ impl Fixture {
         let low_bits: u32 = cd.parms().coeff_modulus().iter().map(|m| 64 - m.value().leading_zeros()).sum();
         let first_bits: u32 = first.parms().coeff_modulus().iter().map(|m| 64 - m.value().leading_zeros()).sum();
         // CKKS scale: products (relinearisation check) must fit the first level, plain values the lowest level used
-        let scale_bits = if cfg.seq().contains(&Proto::RelinKeys) { ((first_bits as i64 - 7) / 2).min(30) } else { (low_bits as i64 - 8).min(30) };
+        // the a-priori worst-case calculus grows with N^2 (product) resp. N (fresh noise): from N = 128 on a larger scale keeps the
+        // tolerance far below the plaintext values (the parameter sets of the bigN sections have >= 54-bit primes)
+        let cap: i64 = if deg >= 128 { 48 } else { 30 };
+        let scale_bits = if cfg.seq().contains(&Proto::RelinKeys) { ((first_bits as i64 - 7) / 2).min(cap) } else { (low_bits as i64 - 8).min(cap) };
         let scale = (2.0f64).powi(scale_bits as i32);
         let t = cfg.spec.t;
         let mut msg_u = vec![0u64; nslots];
@@ -740,6 +781,27 @@ fn hist_json(fx: &Fixture, hist: &[Vec<usize>]) -> Value {
     json!(hist.iter().enumerate().map(|(gr, r)| r.iter().map(|&e| vec![fx.edges_at(gr)[e].0, fx.edges_at(gr)[e].1]).collect::<Vec<_>>()).collect::<Vec<_>>())
 }
 
+/// history as text for expected/observed: complete when short, otherwise per round the number of deliveries with the first and last four
+/// (the replay file always carries the complete history)
+fn hist_text(fx: &Fixture, hist: &[Vec<usize>]) -> String {
+    if hist.iter().map(|r| r.len()).sum::<usize>() <= 96 {
+        return hist_json(fx, hist).to_string();
+    }
+    let rounds: Vec<String> = hist
+        .iter()
+        .enumerate()
+        .map(|(gr, r)| {
+            let pr = |e: &usize| format!("[{},{}]", fx.edges_at(gr)[*e].0, fx.edges_at(gr)[*e].1);
+            if r.len() <= 8 {
+                format!("[{}]", r.iter().map(pr).collect::<Vec<_>>().join(","))
+            } else {
+                format!("[{} deliveries: {},..,{}]", r.len(), r[..4].iter().map(pr).collect::<Vec<_>>().join(","), r[r.len() - 4..].iter().map(pr).collect::<Vec<_>>().join(","))
+            }
+        })
+        .collect();
+    format!("[{}] (complete history in the case)", rounds.join(","))
+}
+
 fn case_json(cfg: &Cfg, fx: &Fixture, hist: &[Vec<usize>]) -> Value {
     json!({"cfg": cfg, "hist": hist_json(fx, hist)})
 }
@@ -798,8 +860,9 @@ fn reference(cfg: &Cfg, fx: &Fixture) -> Result<Refs, RefErr> {
     Ok(Refs { obs, outs })
 }
 
-fn inbox_complete(fx: &Fixture, gr: usize, p: usize, mask: u64) -> bool {
-    fx.edges_at(gr).iter().enumerate().all(|(i, e)| e.1 != p || mask >> i & 1 == 1)
+/// `delivered[i]` = message pair i of round `gr` has been delivered (no bound on the number of pairs: n = 65 has 4160)
+fn inbox_complete(fx: &Fixture, gr: usize, p: usize, delivered: &[bool]) -> bool {
+    fx.edges_at(gr).iter().enumerate().all(|(i, e)| e.1 != p || delivered[i])
 }
 
 struct Judged {
@@ -815,8 +878,11 @@ struct Judged {
 fn judge_history(cfg: &Cfg, fx: &Fixture, refs: &Refs, hist: &[Vec<usize>]) -> Judged {
     let r = hist.len() - 1;
     let last = r + 1 == fx.total_rounds();
-    let mask = mask_of(&hist[r]);
-    let full = mask == mask_of(&(0..fx.edges_at(r).len()).collect::<Vec<_>>());
+    let mut delivered = vec![false; fx.edges_at(r).len()];
+    for &e in &hist[r] {
+        delivered[e] = true;
+    }
+    let full = delivered.iter().all(|&d| d);
     let op = if fx.final_local(r) { "finish" } else { "step2" };
     let mut fails = vec![];
     let mut refusal_classes = vec![];
@@ -829,7 +895,7 @@ fn judge_history(cfg: &Cfg, fx: &Fixture, refs: &Refs, hist: &[Vec<usize>]) -> J
         Ok(ro) => {
             let mut pattern = vec![];
             for p in 0..cfg.parties {
-                let complete = inbox_complete(fx, r, p, mask);
+                let complete = inbox_complete(fx, r, p, &delivered);
                 match (&ro.obs[p], complete) {
                     (Ok(h), true) => {
                         pattern.push(1u8);
@@ -839,13 +905,13 @@ fn judge_history(cfg: &Cfg, fx: &Fixture, refs: &Refs, hist: &[Vec<usize>]) -> J
                                 cfg,
                                 what,
                                 format!("party {p} (inbox complete) returns the bytes of the canonical-order run"),
-                                format!("different bytes after history {}", hist_json(fx, hist)),
+                                format!("different bytes after history {}", hist_text(fx, hist)),
                             ));
                         }
                     }
                     (Err(e), true) => {
                         pattern.push(2);
-                        fails.push(mkfail(cfg, &format!("{op}:complete-inbox-refused:{}", panic_class(e)), format!("party {p} has received every message addressed to it and completes"), format!("{e}; history {}", hist_json(fx, hist))));
+                        fails.push(mkfail(cfg, &format!("{op}:complete-inbox-refused:{}", panic_class(e)), format!("party {p} has received every message addressed to it and completes"), format!("{e}; history {}", hist_text(fx, hist))));
                     }
                     (Ok(_), false) => {
                         pattern.push(3);
@@ -853,7 +919,7 @@ fn judge_history(cfg: &Cfg, fx: &Fixture, refs: &Refs, hist: &[Vec<usize>]) -> J
                             cfg,
                             &format!("{op}:incomplete-inbox-accepted"),
                             format!("party {p} has not received every other party's message and refuses"),
-                            format!("returned a result after history {}", hist_json(fx, hist)),
+                            format!("returned a result after history {}", hist_text(fx, hist)),
                         ));
                     }
                     (Err(e), false) => {
@@ -1205,6 +1271,113 @@ pub enum Mode {
     Cover,
     /// a sequence of protocols on the same participants: canonical and reverse orders, refusal probes in the last protocol
     Chain,
+    /// many parties: the stated family of delivery orders {identity, reverse, rotations, adjacent transpositions}
+    /// (`full` = every rotation and every transposition, otherwise those at a sender boundary)
+    Family { full: bool },
+}
+
+/// one delivery order of the m messages of a round
+#[derive(Clone, Copy, Debug, PartialEq, Eq, Hash)]
+enum Order {
+    Identity,
+    Reverse,
+    /// identity order rotated left by r: r, r+1, .., m-1, 0, .., r-1
+    Rot(usize),
+    /// identity order with the deliveries at positions i and i+1 exchanged
+    Swap(usize),
+}
+
+fn order_vec(o: Order, m: usize) -> Vec<usize> {
+    match o {
+        Order::Identity => (0..m).collect(),
+        Order::Reverse => (0..m).rev().collect(),
+        Order::Rot(r) => (0..m).map(|i| (i + r) % m).collect(),
+        Order::Swap(i) => {
+            let mut v: Vec<usize> = (0..m).collect();
+            v.swap(i, i + 1);
+            v
+        }
+    }
+}
+
+/// numbers k of completely delivered senders at which the sender-boundary sub-family cuts / rotates / transposes
+const SENDER_BOUNDARIES: [usize; 14] = [1, 2, 7, 8, 9, 15, 16, 17, 31, 32, 33, 63, 64, 65];
+
+/// prefix lengths of the identity / reverse order at which every party is probed when not every prefix is: 0, 1, 2, m-2, m-1 and
+/// {k(n-1)-1, k(n-1), k(n-1)+1} for k senders completely delivered (sender-major order), k = 1..n (`all_senders`) or k in the
+/// boundary set {1, 2, 7, 8, 9, 15, 16, 17, 31, 32, 33, 63, 64, 65}
+fn boundary_cuts(m: usize, n: usize, all_senders: bool) -> Vec<usize> {
+    let mut v: BTreeSet<usize> = BTreeSet::new();
+    for c in [0usize, 1, 2, m.saturating_sub(2), m.saturating_sub(1)] {
+        v.insert(c);
+    }
+    let block = if m == n - 1 { 1 } else { n - 1 };
+    for k in 1..=n {
+        if all_senders || SENDER_BOUNDARIES.contains(&k) {
+            for c in [(k * block).saturating_sub(1), k * block, k * block + 1] {
+                v.insert(c);
+            }
+        }
+    }
+    v.into_iter().filter(|&c| c < m).collect()
+}
+
+/// (order, None = complete run | Some(c) = every party probed after the first c deliveries)
+fn family_jobs(m: usize, n: usize, full: bool) -> Vec<(Order, Option<usize>)> {
+    let mut jobs = vec![];
+    if m == 0 {
+        return jobs;
+    }
+    for o in [Order::Identity, Order::Reverse] {
+        jobs.push((o, None));
+        let cuts: Vec<usize> = if full && m <= 300 { (0..m).collect() } else { boundary_cuts(m, n, full) };
+        for c in cuts {
+            jobs.push((o, Some(c)));
+        }
+    }
+    // messages per sender in the canonical order (cipher->shares: one)
+    let block = if m == n - 1 { 1 } else { n - 1 };
+    let at_boundary = |pos: usize| pos % block == 0 && SENDER_BOUNDARIES.contains(&(pos / block));
+    for r in 1..m {
+        if full || at_boundary(r) {
+            jobs.push((Order::Rot(r), None));
+            jobs.push((Order::Rot(r), Some(1)));
+            jobs.push((Order::Rot(r), Some(m - 1)));
+        }
+    }
+    for i in 0..m.saturating_sub(1) {
+        if full || at_boundary(i + 1) {
+            jobs.push((Order::Swap(i), None));
+            jobs.push((Order::Swap(i), Some(i + 1)));
+        }
+    }
+    jobs
+}
+
+/// normal form of the delivered set of a probed state of the family (for counting distinct states)
+fn family_state(o: Order, c: usize, m: usize) -> (u8, usize, usize) {
+    if c == 0 {
+        return (0, 0, 0);
+    }
+    if c >= m {
+        return (0, 0, m);
+    }
+    match o {
+        Order::Identity => (0, 0, c),
+        Order::Reverse => (0, m - c, c),
+        Order::Rot(r) => (0, r % m, c),
+        Order::Swap(i) => {
+            if c <= i || c >= i + 2 {
+                (0, 0, c)
+            } else if i == 0 {
+                (0, 1, 1)
+            } else if i == m - 2 {
+                (0, m - 1, m - 1)
+            } else {
+                (1, i, c)
+            }
+        }
+    }
 }
 
 #[derive(Default)]
@@ -1504,6 +1677,84 @@ fn explore_cfg(cfg: &Cfg, seed: u64, mode: Mode, inner_threads: usize, deadline:
                 acc.absorb(cfg, &fx, &h, j, false);
             }
             acc.states += seen.len() as u64;
+        }
+        Mode::Family { full } => {
+            for round in 0..rounds {
+                let jobs = family_jobs(m, cfg.parties, full);
+                let mut seen: HashSet<(u8, usize, usize)> = HashSet::new();
+                for (o, c) in &jobs {
+                    seen.insert(family_state(*o, c.unwrap_or(m), m));
+                    if c.is_none() {
+                        acc.transitions += m as u64;
+                    }
+                }
+                acc.states += seen.len() as u64;
+                let mk = |fxl: &Fixture, job: &(Order, Option<usize>)| -> (Vec<Vec<usize>>, bool) {
+                    let ord = order_vec(job.0, m);
+                    let mut h: Vec<Vec<usize>> = (0..round).map(|_| (0..m).collect()).collect();
+                    match job.1 {
+                        None => {
+                            h.push(ord);
+                            for _ in round + 1..rounds {
+                                h.push((0..m).collect());
+                            }
+                        }
+                        Some(c) => h.push(ord[..c].to_vec()),
+                    }
+                    let _ = fxl;
+                    let canon = job.0 == Order::Identity && job.1.is_none() && round + 1 == rounds;
+                    (h, canon)
+                };
+                let idx = AtomicUsize::new(0);
+                let results: Mutex<Vec<Acc>> = Mutex::new(vec![]);
+                let capped = std::sync::atomic::AtomicBool::new(false);
+                let worker = |fxl: &Fixture| {
+                    let mut a = Acc::default();
+                    loop {
+                        let i = idx.fetch_add(1, Ordering::SeqCst);
+                        if i >= jobs.len() {
+                            break;
+                        }
+                        if Instant::now() > deadline {
+                            capped.store(true, Ordering::SeqCst);
+                            break;
+                        }
+                        let (h, canon) = mk(fxl, &jobs[i]);
+                        let j = judge_history(cfg, fxl, &refs, &h);
+                        a.absorb(cfg, fxl, &h, j, canon);
+                    }
+                    results.lock().unwrap().push(a);
+                };
+                if inner_threads <= 1 || jobs.len() < 32 {
+                    worker(&fx);
+                } else {
+                    std::thread::scope(|sc| {
+                        for _ in 0..inner_threads {
+                            std::thread::Builder::new()
+                                .stack_size(64 << 20)
+                                .spawn_scoped(sc, || {
+                                    heathcliff_thread_init();
+                                    let fxl = match guard(|| Fixture::build(cfg, seed)) {
+                                        Ok(Ok(f)) => f,
+                                        _ => {
+                                            capped.store(true, Ordering::SeqCst);
+                                            return;
+                                        }
+                                    };
+                                    worker(&fxl);
+                                })
+                                .expect("spawn");
+                        }
+                    });
+                }
+                for a in results.into_inner().unwrap() {
+                    acc.merge(a);
+                }
+                if capped.load(Ordering::SeqCst) {
+                    acc.capped = true;
+                    return acc;
+                }
+            }
         }
         Mode::Cover => {
             for round in 0..rounds {
@@ -1891,6 +2142,288 @@ fn chain_cfgs(n: usize, lens: &[usize]) -> Vec<Cfg> {
     v
 }
 
+// ---------------------------------------------------------------------------------------------
+// production-size configurations (many primes / many parties / large N)
+// ---------------------------------------------------------------------------------------------
+
+/// smallest prime t >= 17 with t = 1 (mod 2N)
+fn plain_modulus_for(n: usize) -> u64 {
+    let step = 2 * n as u64;
+    let mut t = step + 1;
+    while t < 17 || !crate::refmodel::bigu::is_prime_u64(t) {
+        t += step;
+    }
+    t
+}
+
+/// `total` explicit primes: total-1 data primes of `data_bits` bits and a larger special prime (so that key-switching noise is not amplified)
+fn sized_spec(scheme: Scheme, n: usize, total: usize, data_bits: usize, special_bits: usize) -> ParamSpec {
+    let mut q = ntt_primes(n, data_bits, total - 1);
+    q.extend(ntt_primes(n, special_bits, 1));
+    ParamSpec::new(scheme, n, q, plain_modulus_for(n))
+}
+
+/// tiny degree, many primes: [30 x (total-1), 40] bits
+fn many_prime_spec(scheme: Scheme, n: usize, total: usize) -> ParamSpec {
+    sized_spec(scheme, n, total, 30, 40)
+}
+
+/// large degree: [54 x (total-1), 60] bits
+fn big_spec(scheme: Scheme, n: usize, total: usize) -> ParamSpec {
+    sized_spec(scheme, n, total, 54, 60)
+}
+
+const SLOT_BOUNDARIES: [usize; 33] =
+    [0, 1, 7, 8, 9, 15, 16, 17, 31, 32, 33, 63, 64, 65, 127, 128, 129, 255, 256, 257, 511, 512, 513, 1023, 1024, 1025, 2047, 2048, 2049, 4095, 4096, 4097, 8191];
+
+/// structured plaintexts of the large-degree sections: [0] ramp (slot i -> 1 + i mod (t-1); CKKS: a grid ramp), [1] all-maximal,
+/// [2..] unit slots (value t-1 resp. -4+4i at one slot, zero elsewhere) at the boundary positions, last slot and middle slot included
+fn big_msgs(scheme: Scheme, t: u64, deg: usize) -> Vec<(String, Vec<i64>)> {
+    let nslots = if scheme == Scheme::CKKS { deg / 2 } else { deg };
+    let mut units: BTreeSet<usize> = SLOT_BOUNDARIES.iter().cloned().filter(|&k| k < nslots).collect();
+    units.insert(nslots - 1);
+    units.insert(nslots / 2);
+    units.insert(nslots / 2 - 1);
+    let mut v = vec![];
+    if scheme == Scheme::CKKS {
+        v.push(("ramp".to_string(), (0..nslots).flat_map(|i| [(i % 33) as i64 - 16, 16 - (i % 29) as i64]).collect()));
+        v.push(("max".to_string(), (0..nslots).flat_map(|_| [-16i64, 16]).collect()));
+        for k in units {
+            let mut m = vec![0i64; 2 * k + 2];
+            m[2 * k] = -16;
+            m[2 * k + 1] = 16;
+            v.push((format!("unit{k}"), m));
+        }
+    } else {
+        v.push(("ramp".to_string(), (0..nslots).map(|i| 1 + (i as u64 % (t - 1)) as i64).collect()));
+        v.push(("max".to_string(), vec![(t - 1) as i64; nslots]));
+        for k in units {
+            let mut m = vec![0i64; k + 1];
+            m[k] = (t - 1) as i64;
+            v.push((format!("unit{k}"), m));
+        }
+    }
+    v
+}
+
+fn plain_cfg(proto: Proto, spec: &ParamSpec, parties: usize, msg: &[i64], level: usize) -> Cfg {
+    Cfg { proto, spec: spec.clone(), parties, msg: msg.to_vec(), level, shares: ShareMode::Sampler, err: Noise::Real, tern: Noise::Real, chain: vec![] }
+}
+
+/// every protocol x every scheme x every total prime count in `totals` at degree `deg` (tiny), dense plaintext;
+/// input level: first and last, and EVERY level of the chain when `all_levels` names the prime count
+fn many_prime_cfgs(parties: usize, degs: &[usize], totals: &[usize], all_levels: &[usize]) -> Vec<Cfg> {
+    let mut v = vec![];
+    for &deg in degs {
+        for &total in totals {
+            for scheme in Scheme::all() {
+                let spec = many_prime_spec(scheme, deg, total);
+                let msg = msgs_for(scheme, spec.t.max(17), deg).remove(2);
+                for proto in Proto::all() {
+                    let max_level = total - 2;
+                    let mut levels = vec![0usize];
+                    if proto.has_cipher_input() {
+                        if all_levels.contains(&total) {
+                            levels = (0..=max_level).collect();
+                        } else if max_level > 0 {
+                            levels.push(max_level);
+                        }
+                    }
+                    for level in levels {
+                        v.push(plain_cfg(proto, &spec, parties, &msg, level));
+                    }
+                }
+            }
+        }
+    }
+    v
+}
+
+/// every protocol x every scheme at N=4, primes [30,35,40] bits, dense plaintext, first level, for each party count
+fn many_party_cfgs(ns: &[usize]) -> Vec<Cfg> {
+    let mut v = vec![];
+    for &n in ns {
+        for scheme in Scheme::all() {
+            let spec = ParamSpec::new(scheme, 4, chain(4, &[30, 35, 40]), 17);
+            let msg = msgs_for(scheme, 17, 4).remove(2);
+            for proto in Proto::all() {
+                v.push(plain_cfg(proto, &spec, n, &msg, 0));
+            }
+        }
+    }
+    v
+}
+
+/// large degrees: every protocol x every scheme x (degree, total primes) x the named structured plaintexts x {first, last level}
+fn big_n_cfgs(parties: usize, sizes: &[(usize, usize)], plain: &dyn Fn(usize, usize, &str) -> bool, last_level: bool) -> Vec<Cfg> {
+    let mut v = vec![];
+    for &(deg, total) in sizes {
+        for scheme in Scheme::all() {
+            let spec = big_spec(scheme, deg, total);
+            let msgs = big_msgs(scheme, spec.t.max(17), deg);
+            for proto in Proto::all() {
+                for (mi, (name, msg)) in msgs.iter().enumerate() {
+                    if !plain(deg, if scheme == Scheme::CKKS { deg / 2 } else { deg }, name) || (mi > 0 && !proto.uses_message()) {
+                        continue;
+                    }
+                    v.push(plain_cfg(proto, &spec, parties, msg, 0));
+                    if last_level && mi == 0 && proto.has_cipher_input() && total > 2 {
+                        v.push(plain_cfg(proto, &spec, parties, msg, total - 2));
+                    }
+                }
+            }
+        }
+    }
+    v
+}
+
+/// every ordered pair of protocols on the same participants at N=8 with `total` primes (the common tape is consumed in much
+/// larger pieces: the relinearisation round draws total*(total-1)*N words)
+fn many_prime_chain_cfgs(parties: usize, totals: &[usize]) -> Vec<Cfg> {
+    let mut v = vec![];
+    let protos = Proto::all();
+    for &total in totals {
+        for scheme in Scheme::all() {
+            let spec = many_prime_spec(scheme, 8, total);
+            let msg = msgs_for(scheme, 17, 8).remove(2);
+            for a in protos {
+                for b in protos {
+                    if scheme == Scheme::BGV && (a == Proto::SharesToCipher || b == Proto::SharesToCipher) {
+                        continue;
+                    }
+                    let mut c = plain_cfg(b, &spec, parties, &msg, 0);
+                    c.chain = vec![a];
+                    v.push(c);
+                }
+            }
+        }
+    }
+    v
+}
+
+fn size_sections(cfg: &RunCfg) -> Vec<Box<dyn AnySection>> {
+    let seed = cfg.seed;
+    let th = cfg.thorough();
+    let protos = "8 protocols x {BFV,BGV,CKKS} (shares->cipher/BGV is refused by the library and skipped)";
+    let mut v: Vec<Box<dyn AnySection>> = vec![];
+    let sec = |name: &str, bound: String, cfgs: Vec<Cfg>, mode: Mode, inner: bool, share: f64| -> Box<dyn AnySection> {
+        Box::new(E5Section { name: name.to_string(), bound, cfgs, mode, seed, inner_parallel: inner, budget_share: share })
+    };
+    let all_totals: Vec<usize> = (2..=19).collect();
+    // --- many primes, tiny degree ---------------------------------------------------------------
+    {
+        let degs: &[usize] = if th { &[4, 8] } else { &[4] };
+        v.push(sec(
+            "primes_n2",
+            format!(
+                "n=2, N in {degs:?}: EVERY total prime count 2..19 (1..18 data primes at the first level = 1..18 decomposition components of the relinearisation rounds; 8, 9, 16, 17 included), primes [30 x (k-1), 40] bits, t=17; {protos}; dense plaintext; input level first and last, and for the 19-prime chain EVERY level (18..1 primes at the level); ALL 2^2 delivered-sets per round = both delivery orders, every state probed at every party, every lattice edge executed"
+            ),
+            many_prime_cfgs(2, degs, &all_totals, &[19]),
+            Mode::Lattice,
+            false,
+            0.3,
+        ));
+        let totals3: Vec<usize> = if th { all_totals.clone() } else { vec![5, 9, 10, 17, 18] };
+        v.push(sec(
+            "primes_n3",
+            format!(
+                "n=3, N in {degs:?}: total prime counts {totals3:?} (data primes / decomposition components = count-1), primes [30 x (k-1), 40] bits, t=17; {protos}; dense plaintext; input level first and last; ALL 2^6 delivered-sets per round (2^2 for cipher->shares), every state probed at every party, every lattice edge executed"
+            ),
+            many_prime_cfgs(3, degs, &totals3, &[]),
+            Mode::Lattice,
+            false,
+            0.4,
+        ));
+        let ctot: &[usize] = if th { &[9, 10, 17, 18] } else { &[9] };
+        v.push(sec(
+            "primes_chained_n2",
+            format!(
+                "n=2, N=8, total prime counts {ctot:?}: EVERY ordered pair of the 8 protocols on the SAME Participant objects (common tape carried over; the relinearisation rounds draw k(k-1)N words from it) x {{BFV,BGV,CKKS}} (pairs with shares->cipher/BGV excluded); orders and probes as in chained_n2; last protocol judged"
+            ),
+            many_prime_chain_cfgs(2, ctot),
+            Mode::Chain,
+            false,
+            0.3,
+        ));
+    }
+    // --- many parties, tiny degree --------------------------------------------------------------
+    {
+        let sub_ns: &[usize] = &[16, 17, 33, 65];
+        v.push(sec(
+            "parties_boundary",
+            format!(
+                "n in {sub_ns:?} parties, N=4, primes [30,35,40] bits, t=17, dense plaintext, first level; {protos}; EXACTLY this family of delivery orders of the m = n(n-1) messages of a round (cipher->shares: m = n-1), the other round canonical: identity (sender-major) order, reverse order, and for every k in K = {{1,2,7,8,9,15,16,17,31,32,33,63,64}} below n: the rotation of the identity order that starts with the first message of sender k, and the transposition of the two adjacent deliveries across the boundary between senders k-1 and k — NOT all orders. Every order run to completion; every party probed after the prefixes of the identity and reverse orders of length 0, 1, 2, m-2, m-1 and k(n-1)-1, k(n-1), k(n-1)+1 for k in K (k completely delivered senders), after the first and the all-but-last delivery of every rotation run (all-but-one states: the last message of sender k-1 missing), after the later message of every transposed pair"
+            ),
+            many_party_cfgs(sub_ns),
+            Mode::Family { full: false },
+            true,
+            0.6,
+        ));
+    }
+    // --- large degree ---------------------------------------------------------------------------
+    {
+        let ladder: Vec<(usize, usize)> = if th { [16, 32, 64, 128, 256, 512, 1024, 2048, 4096, 8192].iter().map(|&d| (d, 3)).collect() } else { [16, 32, 64, 128, 256, 512, 1024].iter().map(|&d| (d, 3)).collect() };
+        // (degree, slot count, name of the plaintext)
+        let quick_plain = |deg: usize, ns: usize, name: &str| -> bool {
+            name == "ramp" || (deg >= 128 && (name == "max" || name == "unit0" || name == format!("unit{}", ns - 1) || name == format!("unit{}", ns / 2 - 1) || name == format!("unit{}", ns / 2)))
+        };
+        let all_plain = |deg: usize, _ns: usize, name: &str| -> bool { deg >= 128 || name == "ramp" };
+        v.push(sec(
+            "bigN_n2",
+            format!(
+                "n=2, N in {:?} x 3 primes [54,54,60] bits, t = smallest prime = 1 mod 2N (>= 17); {protos}; structured plaintexts: ramp (slot i -> 1 + i mod (t-1)) at every N, first and last level; from N=128 on also all-(t-1) and unit slots ({}); ALL 2^2 delivered-sets per round = both delivery orders, every state probed, every edge executed; CKKS scale 2^48 from N=128 on",
+                ladder.iter().map(|x| x.0).collect::<Vec<_>>(),
+                if th { "value t-1 / -4+4i at ONE slot k, for every k in {0,1,7,8,9,..,2^j-1,2^j,2^j+1,..} below the slot count, the middle and the last slot" } else { "slots 0, middle-1, middle, last (thorough: all boundary slots)" }
+            ),
+            if th { big_n_cfgs(2, &ladder, &all_plain, true) } else { big_n_cfgs(2, &ladder, &quick_plain, true) },
+            Mode::Lattice,
+            false,
+            0.5,
+        ));
+        let sizes3: Vec<(usize, usize)> = if th { vec![(128, 3), (1024, 3), (4096, 3)] } else { vec![(128, 3), (1024, 3)] };
+        let ramp_only = |_deg: usize, _ns: usize, name: &str| -> bool { name == "ramp" };
+        v.push(sec(
+            "bigN_n3",
+            format!(
+                "n=3, N in {:?} x 3 primes [54,54,60] bits; {protos}; ramp plaintext, first level (thorough: and last level); ALL 2^6 delivered-sets per round (2^2 for cipher->shares), every state probed at every party, every lattice edge executed",
+                sizes3.iter().map(|x| x.0).collect::<Vec<_>>()
+            ),
+            big_n_cfgs(3, &sizes3, &ramp_only, th),
+            Mode::Lattice,
+            false,
+            0.6,
+        ));
+        let sizesp: Vec<(usize, usize)> = if th { vec![(1024, 9), (1024, 10), (1024, 17), (1024, 18), (4096, 9), (4096, 10)] } else { vec![(1024, 10)] };
+        v.push(sec(
+            "bigN_primes_n2",
+            format!(
+                "n=2, (N, total primes) in {sizesp:?}, primes [54 x (k-1), 60] bits (long chains over large degrees: 8/9/16/17 primes at the first level, 9/10/17/18 at the key level); {protos}; ramp plaintext, first and last level; ALL 2^2 delivered-sets per round = both delivery orders"
+            ),
+            big_n_cfgs(2, &sizesp, &ramp_only, true),
+            Mode::Lattice,
+            false,
+            0.6,
+        ));
+    }
+    // --- many parties, the complete stated family (last: by far the largest section of the thorough tier, n = 65 alone
+    //     replays 560 k histories of up to 4160 deliveries) -----------------------------------------
+    {
+        let full_ns: &[usize] = if th { &[8, 9, 16, 17, 33, 65] } else { &[8, 9] };
+        let parties_family = sec(
+            "parties_family",
+            format!(
+                "n in {full_ns:?} parties (65 = one more than a machine word of senders), N=4, primes [30,35,40] bits, t=17, dense plaintext, first level; {protos}; EXACTLY this family of delivery orders of the m = n(n-1) messages of a round (cipher->shares: m = n-1), the other round canonical: identity (sender-major) order, reverse order, EVERY rotation of the identity order, EVERY single transposition of two adjacent deliveries of the identity order — NOT all orders. Every order is run to completion (final outputs byte-identical to the canonical run at every party); every party is probed (refusal with an incomplete inbox / canonical bytes with a complete one) after: every prefix of the identity and reverse orders when m <= 300, otherwise the prefixes of length 0, 1, 2, m-2, m-1 and k(n-1)-1, k(n-1), k(n-1)+1 for every k = 1..n; the first delivery and all-but-the-last delivery of every rotation (= EVERY all-but-one state and every single-message state); the state after the later message of every transposed pair. states = distinct probed delivered-sets"
+            ),
+            many_party_cfgs(full_ns),
+            Mode::Family { full: true },
+            true,
+            1.0,
+        );
+        v.push(parties_family);
+    }
+    v
+}
+
 pub fn sections(cfg: &RunCfg) -> Vec<Box<dyn AnySection>> {
     let seed = cfg.seed;
     let th = cfg.thorough();
@@ -1947,14 +2480,15 @@ pub fn sections(cfg: &RunCfg) -> Vec<Box<dyn AnySection>> {
         v.push(chained(3, 0.3));
         v.push(cover(5, 0.2));
         v.push(cover(6, 0.3));
-        v.push(lattice(4, true, true, 1.0));
+        v.push(lattice(4, true, true, 0.5));
     } else {
         v.push(lattice(2, false, false, 0.2));
         v.push(lattice(3, false, false, 0.7));
         v.push(chained(2, 0.3));
         v.push(chained(3, 0.5));
         v.push(cover(5, 0.5));
-        v.push(cover(6, 1.0));
+        v.push(cover(6, 0.5));
     }
+    v.extend(size_sections(cfg));
     v
 }
